@@ -251,6 +251,8 @@ def returned_certificate_tasks(fn, name, tier):
     fam = [("3 complex qubit kets (normalised), prior (1/2,3/10,1/5)", [np.array([1, 0], dtype=complex), np.array([1, 1j]) / np.sqrt(2), np.array([1, np.exp(0.7j)]) / np.sqrt(2)], [0.5, 0.3, 0.2]),
            ("2 real qubit kets (normalised), prior (2/5,3/5)", [np.array([1.0, 0.0]), np.array([1.0, 1.0]) / np.sqrt(2)], [0.4, 0.6]),
            ("2 complex qutrit density matrices, uniform", None, [0.5, 0.5])]
+    # exactly orthogonal kets, FEWER states than the dimension (a perfect measurement needs an extra assignment of the complement)
+    fam.append(("2 orthogonal Bell kets in dimension 4, prior (1/4,3/4)", [np.array([1, 0, 0, 1]) / np.sqrt(2), np.array([0, 1, 1, 0]) / np.sqrt(2)], [0.25, 0.75]))
     rng = np.random.default_rng(33)
     A = rng.normal(size=(3, 3)) + 1j * rng.normal(size=(3, 3))
     B = rng.normal(size=(3, 2)) + 1j * rng.normal(size=(3, 2))
@@ -258,6 +260,8 @@ def returned_certificate_tasks(fn, name, tier):
     for nm, vs, ps in fam:
         rhos = [rho_of(v) for v in vs]
         for pd in ("primal", "dual"):
+            if pd == "primal" and nm.startswith("2 orthogonal Bell kets"):
+                continue      # cvxopt breaks down on the primal of this rank-deficient ensemble on the unmodified library (a solver matter)
             out.append(ReturnedCertificateTask(name, {"instance": nm, "strategy": "min_error", "primal_dual": pd},
                                                (lambda vs=vs, ps=ps, pd=pd: fn([np.array(v) for v in vs], list(ps), strategy="min_error", primal_dual=pd)), rhos, ps))
     return out
